@@ -574,6 +574,11 @@ func (v *levelJSONValue) UnmarshalJSON(data []byte) error {
 			if floatValue, err = strconv.ParseFloat(string(data), 64); err != nil {
 				return err
 			}
+			// A number that does not fit into an int64 would wrap around when converted:
+			// 1e19 must not become a level below everybody's.
+			if math.IsNaN(floatValue) || floatValue >= math.Exp2(63) || floatValue < -math.Exp2(63) {
+				return fmt.Errorf("power level is out of the 64-bit integer range")
+			}
 			int64Value = int64(floatValue)
 		} else {
 			// If we managed to get a string, try parsing the string as an int.
